@@ -472,6 +472,7 @@ func (h *vHarness) runHandover(sc vScenario, sk *hoSink) {
 	m := newVMetrics()
 	s := &hoState{h: h, m: m}
 	h.emit(map[string]any{"ev": "Scenario", "id": sc.ID, "replay": sc.Replay})
+	vSetLogging(sc.ID / 2) // scenarios alternate gated/hammer by id: both kinds get both logging levels
 	server := h.newServer(m, sc.Replay)
 	if server == nil {
 		return
